@@ -29,3 +29,22 @@ def families(tier, seed):
     if tier == "quick":
         return [("pmtype", seed, 600, []), ("config", seed, 1500, ["valid"])]
     return [("pmtype", seed, 6000, []), ("config", seed, 20000, ["valid"])]
+
+
+# ------------------------------------------------------------------------------------------------------------------------------
+# COMPOSED model, part 2 (branch compose; Model/ComposeAuto.lean, notes/compose.md) — purely additive block.
+import os as _os
+import sys as _sys
+_sys.path.insert(0, _os.path.dirname(_os.path.abspath(__file__)))
+import _pmtol  # noqa: F401,E402  (adds the complex-aware tolerance kind "csum" used by cmpa_jsi_from_config)
+OPS = set(OPS) | {'cmpa_jsi_from_config', 'cmpa_from_config'}
+TOL = dict(TOL)
+TOL.update({'cmpa_from_config': ('ulp', 4), 'cmpa_jsi_from_config': ('csum', 1e-13)})
+RULE += " | family compose/c16: the config family's valid-descriptor generator rendered to JSON for SPDCConfig → try_as_spdc; the model recomputes outcome and every field of the setup from the descriptor ALONE (auto crystal angle, auto/explicit poling period with computed sign, auto idler, auto waist positions, external signal/idler angles), and JointSpectrum::jsi at the centre and a detuned pair (Simpson 10/20/50)"
+LEVEL_NOTE += ' COMPOSED MODEL part 2 (notes/compose.md): the cmpa_* K ops carry NO value computed by the real crate — only the configuration descriptor (what is written into the JSON) or the primitive setup; Spdc.Model.ComposeAuto computes the Snell inverse, the poling sign, the optimum poling period, the optimum crystal angle (Nelder–Mead model NM1D.run on cost closures built from the composed Δk, incl. the simplex nested in the angle cost), the optimum idler and the optimal waist positions itself (`composedExt`), then try_as_spdc / try_as_optimum on top. Observed: outcome classes (OK / ERR:class / PANIC) identical on every case, every optimiser result bit-for-bit (0 ulp; no divergence of a simplex path in 3 seeds × 1500 cases per mode), deff ≤ 2 ulp (the Cfg layer folds PICO/V first).'
+CHECKER_MODULES = list(globals().get("CHECKER_MODULES", [])) + ["Spdc.Real.ComposeLemmas", "Spdc.Real.ComposeAutoLemmas"]
+_families_before_compose_auto = families
+
+
+def families(tier, seed):
+    return _families_before_compose_auto(tier, seed) + [("compose", seed, 400 if tier == "quick" else 6000, ["c16"])]
